@@ -467,6 +467,9 @@ func runL5Conc(r *rng.R, threads, perThread int) (obs *l5ConcObs) {
 				s := stmts[tr.Intn(nS)]
 				di := tr.Intn(nD)
 				shape := tr.Pick9()
+				if !stress && tr.Chance(1, 2) {
+					shape = 1 + tr.Intn(2) // two frequent shapes: cache hits, also inside transactions
+				}
 				if !stress && open == nil && tr.Chance(1, 5) {
 					// a transaction running one to four statements (several shapes of the same
 					// Statements the other goroutines run on the DB), then Commit or Rollback
@@ -482,8 +485,8 @@ func runL5Conc(r *rng.R, threads, perThread int) (obs *l5ConcObs) {
 					nq := 1 + tr.Intn(4)
 					for k := 0; k < nq; k++ {
 						s := stmts[tr.Intn(nS)]
-						if k > 0 && tr.Chance(1, 2) {
-							shape = tr.Pick9()
+						if k > 0 && tr.Chance(1, 3) {
+							shape = 1 + tr.Intn(3)
 						}
 						ctx := context.WithValue(context.Background(), fakedrv.CtxKey{}, fmt.Sprintf("d%d-k%d-x%d", di+1, shape, txid))
 						ints, strs := l5Args(shape)
